@@ -43,6 +43,9 @@ var c09Shapes = []c09Shape{
 	// loops that spend their time in recovered Go panics: every recovery re-enters the interpreter loop
 	{"recovered-host-panic-loop", "for { try { boom() } catch e { } }\n", false, nil, true},
 	{"recovered-operator-panic-loop", "z := 0\nfor { try { z = 1 % z } catch e { z = 0 } }\n", false, nil, true},
+	// a function on a child VM that keeps calling back (grandchild VMs taken from and given back to the root's pool all
+	// the time) and shrugs off every error of those calls: only its own VM's flag ends it
+	{"child-retries-grandchildren", "g := func() { return 1 }\nf := func() { for { try { call(g) } catch e { } } }\ncall(f)\n", false, nil, false},
 	{"recovered-panic-in-child-loop", "f := func() { boom() }\nfor { try { call(f) } catch e { } }\n", false, nil, true},
 }
 
@@ -206,7 +209,7 @@ func c09VM(rc *sim.RunCtx, shapeIdx int, pooledAll bool, pl *c09Placement) {
 	}
 
 	s := sim.NewSched(t)
-	if pl == nil && t.Bool(1, 40) {
+	if pl == nil && t.Bool(1, 30) {
 		// the pool locks may be contended for real in this run (see Sched.Contend)
 		s.Contend = true
 	}
